@@ -91,6 +91,18 @@ CLAIMED = {
               'Correspondence: every generated message is encoded by the real encoder from 1..3 shuffled insertion orders; the bytes must equal the model and satisfy an independent recogniser of the property clauses.'),
         note=('Trusted: Lean kernel; propext, Quot.sound, Classical.choice; encoder model tied by correspondence; the std::multimap _pos is modelled as stable insertion by key; hypothesis: group count field = number of elements added; '
               'fields without a schema position (f8c -F user fields, getPos = 0) keep insertion order - excluded from the order clause; encoding the same Message object twice without setup_reuse() is outside the quantifier (DESIGN.md).')),
+    'C31': dict(
+        category='proof', design_ref='DESIGN.md section 7 C31',
+        technique='Lean 4 theorems (induction over arbitrary interleavings of atomic steps with an invariant linking the pending queue to the trace; priority-queue tie-breaking left arbitrary) about a hand-written model of Timer<T>::operator()/schedule/clear, Tickval::million regenerated from the source + differential correspondence on the real Timer thread under a virtual clock (interposed clock_nanosleep as idle point) + threaded scenarios on the real clock with clear() forced into a running callback',
+        text=('Kernel-checked for EVERY execution (any list of clock advances, schedule calls with any delay/repeat flag, clears and loop iterations with any callback results, from a fresh timer) and EVERY tie-breaking of the priority queue: '
+              'C31_not_before_due (each callback run belongs to an earlier schedule call with a non-zero delay and is sampled at or after that call\'s clock value + delay), C31_schedule_due, C31_runs_minimum (the event run has the minimal due time among the pending ones, every state) and '
+              'C31_due_order (at each run of an execution the event run is minimal among the events pending at that moment) / C31_due_order_trace (a later run has a smaller due time only if its schedule push came after the earlier run - schedule reads the clock before it takes the lock, witness C31_order_lag_witness), C31_repeat / C31_stops_after_false / C31_rearm_exact (two runs of one scheduled event are at least one interval apart, the earlier returned true and the event repeats; the re-queued copy is due at sampled time + interval, everything else is untouched), '
+              'C31_clear / C31_sid_unique / C31_clear_empties (a run after a clear belongs to a schedule call made after that clear), C31_zero_time_discarded, C31_tick_refines / C31_tick_quiescent (a wake-up is a run of loop iterations, ends asleep, and leaves nothing due). '
+              'Correspondence: the real Timer thread with a virtual clock, wake-up by wake-up against the model (delays 1-200 ms, boundaries due-1ns/due/due+1ns, ties, result switches, clears, clear() from a second thread during a callback, malformed stream); '
+              'threaded scenarios on the real clock judged by an independent oracle of the four clauses.'),
+        note=('Trusted: Lean kernel; propext, Quot.sound, Classical.choice; MODELLED ASSUMPTION: schedule(), clear() and one loop iteration including the callback are atomic with respect to each other (all hold _spin_lock) - exercised for real by the cclear operation and the threaded mode, not proved about pthread spin locks; '
+              'the clock never goes backwards; no tick overflow; std::priority_queue::top() = some element of minimal _t (ties arbitrary); the time of a run is the `now` sampled by the loop; harness/timer.cpp (reads _event_queue.size() through an explicit-instantiation accessor), harness/vclock.hpp; '
+              'the threaded mode runs under ASan, not TSan. Zero-delay events (outside the 1-200 ms quantifier) are discarded without running (theorem + correspondence; the oracle does not judge them). A callback that calls schedule()/clear() on its own timer would self-deadlock on the spin lock (not exercised).')),
 }
 
 PENDING_REASON = 'not yet covered: the Lean model and correspondence harness for this property have not been built in this framework yet (see DESIGN.md section 7 for the plan); no other technique is substituted'
